@@ -2,6 +2,7 @@
   C03 — property theorems for the VT100 input decoder model (`Ptk.Model.C03`).
 -/
 import Ptk.Props.C03Decode
+import Ptk.Props.C03Utf8
 namespace Ptk.C03
 open Ptk.Py
 
@@ -218,6 +219,71 @@ theorem mouse_decode (cfg : Cfg) (hesc : isPrefixOfLonger cfg [ESC] = true) (k :
   decode_held cfg k [cfg.mouseKey] (isMouse_ne_nil hmo) (by simp) (by simp [getMatch, hc, hmo])
     (mouse_held cfg hesc hmo) s hs hp
 
+/-! ### inside a stream: sequences that cannot grow are decoded at once -/
+
+/-- a complete sequence (table entry, CPR or mouse report) with its keys: it has a match, all its
+    proper prefixes are held back, it is not itself a prefix of something longer, and it is not
+    the paste start mark -/
+structure Token (cfg : Cfg) (k : Text) (v : List String) : Prop where
+  ne : k ≠ []
+  val : v ≠ []
+  isMatch : getMatch cfg k = v
+  held : ∀ p : Text, p <+: k → p ≠ k → p ≠ [] → isPrefixOfLonger cfg p = true
+  final : isPrefixOfLonger cfg k = false
+  noPaste : cfg.pasteKey ∉ v
+
+/-- the table entries that are tokens: everything that is not a prefix of a longer sequence -/
+theorem token_of_table {cfg : Cfg} {k : Text} {v : List String} (hk : k ≠ []) (hv : v ≠ [])
+    (hl : lookup cfg.table k = v) (hc : isCpr cfg.isDigit k = false) (hmo : isMouse cfg.isDigit k = false)
+    (hfin : isPrefixOfLonger cfg k = false) (hnp : cfg.pasteKey ∉ v) : Token cfg k v :=
+  ⟨hk, hv, by simp [getMatch, hc, hmo, hl],
+    fun _ hp hne _ => isPrefixOfLonger_of_mem cfg (lookup_mem hl hv) hv hp hne, hfin, hnp⟩
+
+/-- complete CPR / mouse reports are tokens (when nothing longer starts with them) -/
+theorem token_of_cpr {cfg : Cfg} (h : WF cfg) (hesc : isPrefixOfLonger cfg [ESC] = true) {k : Text}
+    (hc : isCpr cfg.isDigit k = true) (hfin : isPrefixOfLonger cfg k = false) :
+    Token cfg k [cfg.cprKey] :=
+  ⟨isCpr_ne_nil hc, by simp, by simp [getMatch, hc], cpr_held cfg hesc hc, hfin,
+    by simp only [List.mem_singleton]; exact fun e => h.cpr e.symm⟩
+
+theorem token_of_mouse {cfg : Cfg} (h : WF cfg) (hesc : isPrefixOfLonger cfg [ESC] = true) {k : Text}
+    (hc : isCpr cfg.isDigit k = false) (hm : isMouse cfg.isDigit k = true)
+    (hfin : isPrefixOfLonger cfg k = false) : Token cfg k [cfg.mouseKey] :=
+  ⟨isMouse_ne_nil hm, by simp, by simp [getMatch, hc, hm], mouse_held cfg hesc hm, hfin,
+    by simp only [List.mem_singleton]; exact fun e => h.mouse e.symm⟩
+
+/-- **A token at the head of a stream is decoded to its keys at once, whatever follows** (no
+    flush needed, no interference from the following characters). -/
+theorem token_decode (cfg : Cfg) {k : Text} {v : List String} (tk : Token cfg k v) (d : Text)
+    (s : St) (hs : s.pre = []) (hp : s.inPaste = false) :
+    feed cfg s (k ++ d) = feed cfg { s with out := s.out ++ presses v k } d := by
+  rw [feed_append, decode_now cfg k v tk.ne tk.val tk.isMatch tk.held tk.final s hs hp,
+    callHandler_noPaste cfg _ _ _ tk.noPaste]
+
+/-- **A stream that is a concatenation of tokens decodes to the concatenation of their keys**, in
+    order, each key press carrying exactly its own sequence, nothing left pending. -/
+theorem tokens_decode (cfg : Cfg) (toks : List (Text × List String))
+    (h : ∀ kv ∈ toks, Token cfg kv.1 kv.2) (s : St) (hs : s.pre = []) (hp : s.inPaste = false)
+    (hr : Ready s) :
+    feed cfg s (toks.flatMap (·.1)) = { s with out := s.out ++ toks.flatMap (fun kv => presses kv.2 kv.1) } := by
+  induction toks generalizing s with
+  | nil => simp [feed_nil cfg s hr]
+  | cons kv r ih =>
+    rw [List.flatMap_cons, token_decode cfg (h kv (by simp)) _ s hs hp,
+      ih (fun x hx => h x (by simp [hx])) { s with out := s.out ++ presses kv.2 kv.1 } hs hp
+        (by intro hq; rw [hp] at hq; cases hq)]
+    simp [List.append_assoc]
+
+/-- on the current table: `ESC [ A`, `ESC [ 1 ; 5 C`, a CPR report and `ESC [ 3 ~` in one stream -/
+example : (feed genCfg St.init
+      ([ESC, '[', 'A'] ++ [ESC, '[', '1', ';', '5', 'C'] ++ [ESC, '[', '3', ';', '7', 'R'] ++ [ESC, '[', '3', '~'])).out
+    = [⟨"up", [ESC, '[', 'A']⟩, ⟨"c-right", [ESC, '[', '1', ';', '5', 'C']⟩,
+       ⟨"<cursor-position-response>", [ESC, '[', '3', ';', '7', 'R']⟩, ⟨"delete", [ESC, '[', '3', '~']⟩] := by
+  decide +kernel
+example : Token genCfg [ESC, '[', '3', '~'] ["delete"] :=
+  token_of_table (by decide) (by decide) (by decide +kernel) (by decide +kernel) (by decide +kernel)
+    (by decide +kernel) (by decide)
+
 /-- in terms of key presses: `v = (k₀, k₁, …)` arrives as `(k₀, data = sequence), (k₁, ""), …` -/
 theorem table_decode_presses (cfg : Cfg) (k : Text) (v : List String) (hk : k ≠ []) (hv : v ≠ [])
     (hl : lookup cfg.table k = v) (hc : isCpr cfg.isDigit k = false) (hmo : isMouse cfg.isDigit k = false)
@@ -363,5 +429,89 @@ example : (flush genCfg (feed genCfg St.init [ESC, '[', '1', ';', '5', 'A'])).ou
 example : (flush genCfg (feed genCfg St.init [ESC, '[', '2', ';', '3', '~'])).out
     = [⟨"escape", [ESC, '[', '2', ';', '3', '~']⟩, ⟨"insert", []⟩] := by decide +kernel
 example : ([ESC, '[', '1', ';', '5', 'A'], ["c-up"]) ∈ genCfg.table := by decide +kernel
+
+/-! ## 7. below the parser: byte reads through the incremental UTF-8 decoder -/
+
+namespace Utf8
+
+/-- **The incremental decoder is chunk independent**: decoding `a` and then `b` (carrying the
+    undecoded tail over) yields the same text and the same tail as decoding `a ++ b` at once —
+    for arbitrary bytes, including invalid UTF-8 and cuts inside a multi-byte sequence. -/
+theorem decode_append (buf a b : Bytes) :
+    decode buf (a ++ b) =
+      ((decode buf a).1 ++ (decode (decode buf a).2 b).1, (decode (decode buf a).2 b).2) := by
+  unfold decode
+  rw [← List.append_assoc, scan_append']
+
+/-- **Byte-level chunk independence of `Vt100Input.read_keys`**: two `os.read`s delivering `a`
+    then `b` leave decoder buffer, parser state and delivered key presses exactly as one read
+    delivering `a ++ b` — wherever the OS cuts, also inside a UTF-8 sequence or an escape sequence. -/
+theorem readKeys_append (cfg : Cfg) (st : InSt) (a b : Bytes) :
+    readKeys cfg st (a ++ b) = readKeys cfg (readKeys cfg st a) b := by
+  unfold readKeys
+  rw [decode_append]
+  simp [feed_append]
+
+/-- the byte segments between the flushes of a schedule -/
+def bsegs : List BOp → Bytes → List Bytes
+  | [], cur => [cur]
+  | .read d :: r, cur => bsegs r (cur ++ d)
+  | .flush :: r, cur => cur :: bsegs r []
+
+def brunSegs (cfg : Cfg) : InSt → List Bytes → InSt
+  | s, [] => s
+  | s, [d] => readKeys cfg s d
+  | s, d :: r => brunSegs cfg (flushKeys cfg (readKeys cfg s d)) r
+
+theorem bsegs_ne_nil (ops : List BOp) (cur : Bytes) : bsegs ops cur ≠ [] := by
+  induction ops generalizing cur with
+  | nil => simp [bsegs]
+  | cons o r ih => cases o <;> simp [bsegs, ih]
+
+theorem brun_eq_segs_aux (cfg : Cfg) (ops : List BOp) (s : InSt) (cur : Bytes) (hs : InReady s) :
+    brun cfg (readKeys cfg s cur) ops = brunSegs cfg s (bsegs ops cur) := by
+  induction ops generalizing s cur with
+  | nil => simp [brun, bsegs, brunSegs]
+  | cons o r ih =>
+    cases o with
+    | read d =>
+      have := ih s (cur ++ d) hs
+      simp only [brun, List.foldl_cons, bstep, bsegs] at this ⊢
+      rw [← readKeys_append]; exact this
+    | flush =>
+      have hne := bsegs_ne_nil r []
+      have hr : InReady (flushKeys cfg (readKeys cfg s cur)) :=
+        flushKeys_ready cfg _ (readKeys_ready cfg s cur hs)
+      have := ih (flushKeys cfg (readKeys cfg s cur)) [] hr
+      rw [readKeys_nil cfg _ hr] at this
+      simp only [brun, List.foldl_cons, bstep, bsegs] at this ⊢
+      rw [this]
+      cases hq : bsegs r [] with
+      | nil => exact absurd hq hne
+      | cons x xs => simp [brunSegs]
+
+/-- **Schedules of byte reads and flush timeouts**: the result (decoder buffer, parser state, all
+    key presses) depends only on the bytes and on the positions of the flushes in the byte
+    stream, not on how the bytes were cut into reads. -/
+theorem byte_schedule_independent (cfg : Cfg) (ops₁ ops₂ : List BOp) (s : InSt) (hs : InReady s)
+    (h : bsegs ops₁ [] = bsegs ops₂ []) : brun cfg s ops₁ = brun cfg s ops₂ := by
+  have e1 := brun_eq_segs_aux cfg ops₁ s [] hs
+  have e2 := brun_eq_segs_aux cfg ops₂ s [] hs
+  rw [readKeys_nil cfg s hs] at e1 e2
+  rw [e1, e2, h]
+
+/-- `世` (E4 B8 96) cut after its first byte, then `ESC [ A` cut after the ESC -/
+example :
+    (brun genCfg InSt.init [.read [0xE4], .read [0xB8, 0x96, 27], .read [91, 65], .flush]).p.out
+      = [⟨"世", ['世']⟩, ⟨"up", [ESC, '[', 'A']⟩]
+    ∧ brun genCfg InSt.init [.read [0xE4], .read [0xB8, 0x96, 27], .read [91, 65], .flush]
+      = brun genCfg InSt.init [.read [0xE4, 0xB8, 0x96, 27, 91, 65], .flush] := by
+  refine ⟨by decide +kernel, byte_schedule_independent genCfg _ _ _ inReady_init (by decide)⟩
+
+/-- invalid bytes: `E0 80` is rejected as soon as the `80` is seen, `ED A0` is held until the next byte -/
+example : decode [] [0xE0, 0x80] = ([0xDCE0, 0xDC80], []) ∧ decode [] [0xED, 0xA0] = ([], [0xED, 0xA0])
+    ∧ decode [0xED, 0xA0] [0x41] = ([0xDCED, 0xDCA0, 0x41], []) := by decide +kernel
+
+end Utf8
 
 end Ptk.C03
